@@ -34,6 +34,14 @@ theorem blurTime_congr {s s1 : Sys} (h : s1.cfg = s.cfg) : s1.blurTime = s.blurT
   unfold blurTime blurTicks
   rw [h]
 
+@[simp] theorem blurTime_modDb (s : Sys) (f) : (s.modDb f).blurTime = s.blurTime := blurTime_congr rfl
+@[simp] theorem blurTime_modUdb (s : Sys) (f) : (s.modUdb f).blurTime = s.blurTime := blurTime_congr rfl
+@[simp] theorem blurTime_updConn (s : Sys) (c f) : (s.updConn c f).blurTime = s.blurTime := blurTime_congr rfl
+@[simp] theorem blurTime_emit (s : Sys) (e) : (s.emit e).blurTime = s.blurTime := blurTime_congr rfl
+@[simp] theorem blurTime_send (s : Sys) (c f) : (s.send c f).blurTime = s.blurTime := blurTime_congr rfl
+@[simp] theorem blurTime_commit (s : Sys) : s.commit.blurTime = s.blurTime := blurTime_congr (by simp)
+@[simp] theorem blurTime_ucommit (s : Sys) : s.ucommit.blurTime = s.blurTime := blurTime_congr (by simp)
+
 /-- `_summarize_nameplate_and_store` on a non-empty list of side rows appends exactly `npRecord` -/
 theorem storeNameplateUsage_eq (s : Sys) (app : String) {sides : List NpSide} (t : Time) (pruned : Bool)
     (h : sides ≠ []) :
@@ -153,6 +161,24 @@ theorem eq_of_key_eq {α β : Type} (key : α → β) {l : List α}
     · exact absurd e (hx b hb')
     · exact absurd e.symm (hx a ha')
     · exact ih hxs ha' hb'
+
+/-- in a list with pairwise different keys, a predicate that pins the key selects one row -/
+theorem filter_eq_singleton {α β : Type} (key : α → β) {l : List α} (p : α → Bool)
+    (h : l.Pairwise (fun a b => ¬ key a = key b)) {a : α} (ha : a ∈ l) (hp : p a = true)
+    (hk : ∀ x ∈ l, p x = true → key x = key a) : l.filter p = [a] := by
+  induction l with
+  | nil => simp at ha
+  | cons x xs ih =>
+    obtain ⟨hx, hxs⟩ := List.pairwise_cons.1 h
+    rcases List.mem_cons.1 ha with rfl | ha'
+    · rw [List.filter_cons_of_pos hp]
+      congr 1
+      rw [List.filter_eq_nil_iff]
+      intro y hy hpy
+      exact hx y hy (hk y (List.mem_cons_of_mem _ hy) hpy).symm
+    · have hpx : ¬ p x = true := fun hpx => hx a ha' (hk x List.mem_cons_self hpx)
+      rw [List.filter_cons_of_neg hpx]
+      exact ih hxs ha' (fun y hy => hk y (List.mem_cons_of_mem _ hy))
 
 /-- a duplicate-free-by-key list, filtered by "key not among the keys of (the list filtered by q)",
     is the list filtered by `¬ q` -/
